@@ -62,16 +62,14 @@ func (c *ASTConverter) changeScale(v *input.Instance) error {
 	if v.Key == nil {
 		return nil
 	}
-	x, ok := c.chordConverter.(ScaleChangeable)
-	if !ok {
-		return nil
-	}
-
+	// whatever the notation, the key has to be one crd has a scale for: write needs it
 	scale, err := op.NewScale(*v.Key)
 	if err != nil {
 		return err
 	}
-	x.ChangeScale(scale)
+	if x, ok := c.chordConverter.(ScaleChangeable); ok {
+		x.ChangeScale(scale)
+	}
 	return nil
 }
 
